@@ -1518,6 +1518,97 @@ def translate_find_present_keys(repo=REPO):
         "  else (s.desired, none, none)\n")
 
 
+# ---------------------------------------------------------------------------
+# the store's own precondition gate: `_check_duplicate` (git and vdir) and `_forget_uid`
+#
+# `self._scan_uids()` is the refresh of the cache (modelled separately, `scan_is_exact`): the map it leaves
+# behind is the parameter `uid_to_fname`; `self._get_etag(name)` is the parameter `cur` (`none` = KeyError).
+
+def _uid_lookup_try(s, mapattr, key):
+    """try: (a, _) = self.<mapattr>[<key>]  -> (name bound to the first component) or None"""
+    if isinstance(s, ast.Try) and len(s.body) == 1 and isinstance(s.body[0], ast.Assign) \
+            and isinstance(s.body[0].targets[0], ast.Tuple) and len(s.body[0].targets[0].elts) == 2 \
+            and ast.unparse(s.body[0].value) == f"self.{mapattr}[{key}]" and len(s.handlers) == 1 \
+            and isinstance(s.handlers[0].type, ast.Name) and s.handlers[0].type.id == "KeyError" and not s.finalbody:
+        return s.body[0].targets[0].elts[0].id
+    return None
+
+
+def translate_check_duplicate(file, cls, lean, repo=REPO):
+    fn = _find_method(ast.parse(open(os.path.join(repo, file), encoding="utf-8").read()), cls, "_check_duplicate")
+    if [a.arg for a in fn.args.args] != ["self", "uid", "name", "replace_etag"]:
+        raise Untranslatable("signature changed")
+    body = [b for b in fn.body if not (isinstance(b, ast.Expr) and isinstance(b.value, ast.Constant))]
+    if len(body) != 4:
+        raise Untranslatable(f"{len(body)} statements, 4 expected")
+    guard, tr_etag, cond, ret = body
+    # 1. if uid is not None and self._check_for_duplicate_uids: self._scan_uids(); try … else: if existing != name: raise
+    if not (isinstance(guard, ast.If) and not guard.orelse and ast.unparse(guard.test) == "uid is not None and self._check_for_duplicate_uids"
+            and len(guard.body) == 2 and ast.unparse(guard.body[0]) == "self._scan_uids()"):
+        raise Untranslatable("UID guard shape")
+    tr = guard.body[1]
+    ex = _uid_lookup_try(tr, "_uid_to_fname", "uid")
+    if ex is None or not (len(tr.handlers[0].body) == 1 and isinstance(tr.handlers[0].body[0], ast.Pass)) or len(tr.orelse) != 1:
+        raise Untranslatable("UID lookup shape")
+    inner = tr.orelse[0]
+    if not (isinstance(inner, ast.If) and not inner.orelse and isinstance(inner.test, ast.Compare) and len(inner.test.ops) == 1
+            and isinstance(inner.test.ops[0], (ast.NotEq, ast.Eq)) and {ast.unparse(inner.test.left), ast.unparse(inner.test.comparators[0])} == {ex, "name"}
+            and len(inner.body) == 1 and isinstance(inner.body[0], ast.Raise) and ast.unparse(inner.body[0].exc.func) == "DuplicateUidError"):
+        raise Untranslatable("duplicate test shape")
+    cmp1 = f"({ex} != name)" if isinstance(inner.test.ops[0], ast.NotEq) else f"({ex} == name)"
+    # 2. try: etag = self._get_etag(name) except KeyError: etag = None
+    if not (isinstance(tr_etag, ast.Try) and len(tr_etag.body) == 1 and ast.unparse(tr_etag.body[0]) == "etag = self._get_etag(name)"
+            and len(tr_etag.handlers) == 1 and ast.unparse(tr_etag.handlers[0].type) == "KeyError"
+            and len(tr_etag.handlers[0].body) == 1 and ast.unparse(tr_etag.handlers[0].body[0]) == "etag = None"
+            and not tr_etag.orelse and not tr_etag.finalbody):
+        raise Untranslatable("current-etag shape")
+    # 3. if <test over replace_etag, etag>: raise InvalidETag
+    if not (isinstance(cond, ast.If) and not cond.orelse and len(cond.body) == 1 and isinstance(cond.body[0], ast.Raise)
+            and ast.unparse(cond.body[0].exc.func) == "InvalidETag"):
+        raise Untranslatable("etag test shape")
+    cx = DG()
+    cx.types = {"replace_etag": "osym", "etag": "osym"}
+    t2, ty2 = dg_expr(cond.test, cx)
+    if ty2 != "bool":
+        raise Untranslatable("etag test type")
+    if ast.unparse(ret) != "return etag":
+        raise Untranslatable("return value")
+    return (
+        f"/-- translated from `{file}::{cls}._check_duplicate`; `uid_to_fname` is `self._uid_to_fname` after\n"
+        "    `self._scan_uids()`, `etag` what `self._get_etag(name)` gives (`none`: KeyError) -/\n"
+        f"def {lean} (check_for_duplicate_uids : Bool) (uid_to_fname : Map (String × String)) (etag : Option String)\n"
+        "    (uid : Option String) (name : String) (replace_etag : Option String) : Except Py.PyErr (Option String) :=\n"
+        "  (match (if Option.isSome uid && check_for_duplicate_uids then uid.bind (fun u => uid_to_fname[u]?) else none) with\n"
+        f"    | some ({ex}, _) => if {cmp1} then throw (Py.PyErr.raised \"DuplicateUidError\" {ex}) else pure ()\n"
+        "    | none => pure ()) >>= fun _ =>\n"
+        f"  if {t2.replace('(some etag)', 'etag')} then throw (Py.PyErr.raised \"InvalidETag\" name) else pure etag\n")
+
+
+def translate_forget_uid(file, cls, lean, repo=REPO):
+    fn = _find_method(ast.parse(open(os.path.join(repo, file), encoding="utf-8").read()), cls, "_forget_uid")
+    if [a.arg for a in fn.args.args] != ["self", "name", "uid"]:
+        raise Untranslatable("signature changed")
+    body = [b for b in fn.body if not (isinstance(b, ast.Expr) and isinstance(b.value, ast.Constant))]
+    if len(body) != 3 or ast.unparse(body[0]) != "if uid is None:\n    return":
+        raise Untranslatable("shape")
+    ex = _uid_lookup_try(body[1], "_uid_to_fname", "uid")
+    if ex is None or ast.unparse(body[1].handlers[0].body[0]) != "return" or body[1].orelse:
+        raise Untranslatable("lookup shape")
+    last = body[2]
+    if not (isinstance(last, ast.If) and not last.orelse and isinstance(last.test, ast.Compare) and len(last.test.ops) == 1
+            and isinstance(last.test.ops[0], (ast.Eq, ast.NotEq)) and {ast.unparse(last.test.left), ast.unparse(last.test.comparators[0])} == {ex, "name"}
+            and len(last.body) == 1 and ast.unparse(last.body[0]) == "del self._uid_to_fname[uid]"):
+        raise Untranslatable("deletion shape")
+    cmp1 = f"({ex} == name)" if isinstance(last.test.ops[0], ast.Eq) else f"({ex} != name)"
+    return (
+        f"/-- translated from `{file}::{cls}._forget_uid`: the map afterwards -/\n"
+        f"def {lean} (uid_to_fname : Map (String × String)) (name : String) (uid : Option String) : Map (String × String) :=\n"
+        "  match uid with\n  | none => uid_to_fname\n  | some uid =>\n"
+        "    (match uid_to_fname[uid]? with\n"
+        "     | none => uid_to_fname\n"
+        f"     | some ({ex}, _) => if {cmp1} then uid_to_fname.erase uid else uid_to_fname)\n")
+
+
 SCAN_SPECS = [
     dict(module="Unescape", file="xandikos/icalendar.py", func="_unescape_text", lean="unescape_text",
          params=[("text", "str"), ("split", "bool")], returns="strlist",
@@ -1665,6 +1756,15 @@ def generate(repo=REPO, out_dir=GEN_DIR):
         mods["FindKeys"] = [({"func": "AutoIndexManager.find_present_keys"}, translate_find_present_keys(repo), None)]
     except (Untranslatable, SyntaxError, KeyError, IndexError, AttributeError, StopIteration) as e:
         mods["FindKeys"] = [({"func": "AutoIndexManager.find_present_keys"}, None, f"{type(e).__name__}: {e}")]
+    mods["StoreGate"] = []
+    for (f_, c_, l_, fn_) in (("xandikos/store/git.py", "GitStore", "git_check_duplicate", translate_check_duplicate),
+                              ("xandikos/store/vdir.py", "VdirStore", "vdir_check_duplicate", translate_check_duplicate),
+                              ("xandikos/store/git.py", "GitStore", "git_forget_uid", translate_forget_uid),
+                              ("xandikos/store/vdir.py", "VdirStore", "vdir_forget_uid", translate_forget_uid)):
+        try:
+            mods["StoreGate"].append(({"func": l_}, fn_(f_, c_, l_, repo), None))
+        except (Untranslatable, SyntaxError, KeyError, IndexError, AttributeError, StopIteration) as e:
+            mods["StoreGate"].append(({"func": l_}, None, f"{type(e).__name__}: {e}"))
     mods["Gates"] = []
     for g in GATES:
         try:
@@ -1677,6 +1777,8 @@ def generate(repo=REPO, out_dir=GEN_DIR):
         hdr = HEADER
         if mod == "Gates":
             hdr = HEADER.replace("import Xandikos.Py.Dict\n", "import Xandikos.Py.Dict\nimport Xandikos.Generated.Etag\n")
+        if mod == "StoreGate":
+            hdr = HEADER.replace("import Xandikos.Py.Dict\n", "import Xandikos.Py.Dict\nimport Xandikos.Base\n")
         if mod == "FindKeys":
             hdr = HEADER.replace("import Xandikos.Py.Dict\n", "import Xandikos.Py.Dict\nimport Xandikos.Base\n")
         if mod == "Multiget":
